@@ -397,6 +397,22 @@ int vf_have_asan(void) {
     return VF_ASAN;
 }
 
+const char *vf_sweep_name(void) {
+    const char *e = getenv("VF_SWEEP_NAME");
+    return e ? e : "";
+}
+void vf_sweep_part(uint64_t *part, uint64_t *parts) {
+    const char *a = getenv("VF_SWEEP_PART"), *b = getenv("VF_SWEEP_PARTS");
+    *part = a ? strtoull(a, NULL, 10) : 0;
+    *parts = b ? strtoull(b, NULL, 10) : 1;
+    if (*parts == 0) {
+        *parts = 1;
+    }
+    if (*part >= *parts) {
+        *part = 0;
+    }
+}
+
 /* ------------------------------------------------------- exact-size buffers */
 #define VF_TAIL 32
 #define VF_HDR 32
